@@ -25,6 +25,8 @@ pub fn ghost_scn(name: &str, cats: &[Cat], full: bool) -> ChatScn {
     }
     s.ends = vec!["eof"];
     s.orphan_check = true;
+    // what the two claimants have already tried is part of the state key
+    s.key_tried = vec![1, 2];
     s.focus = Focus::state_only(cats);
     s.invariants = vec!["membership-symmetry", "dangling-member", "rank-set", "invisible-count", "operators-count", "max-users"];
     s.goals = vec!["ghost:refused-433", "ghost:ended-while-owner-lives"];
